@@ -7,7 +7,8 @@ CONSTANTS
   Anisos <- AnisoAll
   Sills = {2, 5}
   Layouts = {"spread", "cluster", "nodes", "outside"}
-  Keep <- KeepAll
+  Verrs = {"const", "distinct", "extreme"}
+  Keep <- KeepThor
   HeavyEvery = 3
   PolyCoefs <- Coefs
   PolyDiags <- Diags
